@@ -13,7 +13,7 @@ RELEVANT = {
     "C03": ALLOCM + ["cap_exceeds_block", "leak_block", "garbage_"],   # garbage_*: poison read back = a read outside every live block
     "C04": OWN,            # its conclusion is about the elements the vector exposes / destroys
     "C05": OWN,
-    "C06": OWN + ALLOCM + ["crash", "vec_mismatch", "iter_protocol", "sentinel_alloc"],
+    "C06": OWN + ALLOCM + ["crash", "vec_mismatch", "iter_protocol", "sentinel_alloc", "storage_for_nothing"],
     "C07": ["capacity_contract", "len_gt_cap", "cap_exceeds_block", "spare_view_wrong", "storage_moved"],
     "C08": ["lost_overalignment", "misaligned", "walign_"],
     "C09": ["capacity_contract", "cap_exceeds_block", "len_gt_cap", "hang", "profile_disagreement", "crash"],
@@ -23,7 +23,7 @@ RELEVANT = {
     "C14": ["raw_roundtrip_moved", "crash", "len_gt_cap", "cap_exceeds_block"] + OWN,
     "C15": ["slice_semantics"],
     "C17": OWN + ALLOCM + ["crash", "leak_block"],
-    "C18": ["crash"],
+    "C18": ["crash", "header_changed_before_failure"],
 }
 
 def relevant(pid, mon):
@@ -106,8 +106,19 @@ def premise_ok(pid, line, parsed, k):
     if pid == "C10":
         return k < len(body) and body[k][0] in ITER_OPS or (k < len(body) and body[k][0] == "end")
     if pid == "C06":
-        # about vectors that have never allocated: nothing has been allocated in this history so far
-        return not any(re.search(r"(^|,)[ar]\d", p["alloc"]) for p in parsed if p["k"] < k)
+        # about vectors that have never allocated: nothing has been allocated in this history so far ...
+        if not any(re.search(r"(^|,)[ar]\d", p["alloc"]) for p in parsed if p["k"] < k):
+            return True
+        # ... or the operation works on a vector that has no storage (or does not exist yet) at that moment
+        if k < len(body):
+            prev = [p for p in parsed if p["k"] < k]
+            st = prev[-1]["state"] if prev else ""
+            for x in body[k][1:3]:
+                if x.isdigit():
+                    m = re.search(r"(^| )v%s=\d+,\d+,([^,]+)," % x, st or "")
+                    if (m and m.group(2) == "nul") or (not m and body[k][0] not in ITER_OPS):
+                        return True
+        return False
     return True
 
 def judge(pid, line, res, expected_abort=False):
@@ -121,6 +132,23 @@ def judge(pid, line, res, expected_abort=False):
         kdead = (parsed[-1]["k"] + 1) if parsed else 0
         if relevant(pid, kind) and premise_ok(pid, line, parsed, kdead):
             v.append("%s:%s" % (kind, res["fate"]))
+    # C18: at the moment a resize request is refused the block's header must still describe the old block
+    # (ALLOCFAIL f<size>:<align>:h<len>/<cap>/<align> is printed by the checking allocator before it returns
+    # null; the length and capacity the implementation itself reported on the line before are the reference)
+    if relevant(pid, "header_changed_before_failure"):
+        body = [o.split() for o in line.split("::", 1)[1].split(";") if o.split()]
+        kdead = (parsed[-1]["k"] + 1) if parsed else 0
+        for l in res.get("raw_lines", []):
+            mm = re.match(r"ALLOCFAIL f\d+:\d+:h(\d+)/(\d+)/(\d+)", l)
+            # only for operations that make a single request (a bulk operation grows several times: its header
+            # legitimately changes between its requests; those are compared with the model's header instead)
+            if mm and parsed and kdead < len(body) and len(body[kdead]) > 1 and body[kdead][1].isdigit() and \
+               body[kdead][0] in ("reserve", "reservex", "shrinkfit", "shrinkto", "push", "insert"):
+                st = re.search(r"(^| )v%s=(\d+),(\d+)," % body[kdead][1], parsed[-1]["state"] or "")
+                if st and (st.group(2), st.group(3)) != (mm.group(1), mm.group(2)):
+                    v.append("header_changed_before_failure:v%s:len%s>%s,cap%s>%s@%d:%s" %
+                             (body[kdead][1], st.group(2), mm.group(1), st.group(3), mm.group(2), kdead, body[kdead][0]))
+                break
     last = None
     for p in parsed:
         last = p
